@@ -45,6 +45,22 @@ class Atomic(PathRule):
         self.builders = builders      # FuncRefs of the other builder functions (atomic themselves)
         self.raising_sites = 0
 
+    def helper(self, call):
+        """a method of the class the rules do not know (extracted from the builder): its body is walked in place of the call"""
+        from ..walker import unknown_self_helper
+        fn = self.fref.node
+        if not fn.args.args:
+            return None
+        h = unknown_self_helper(self.model, self.fref, call, fn.args.args[0].arg)
+        if h is None:
+            return None
+        # the helper's parameters alias whatever state the arguments alias
+        for p_, a in zip([x.arg for x in h.args.args[1:]], call.args):
+            if self._is_state_root(a):
+                self.aliases.add(p_)
+        self.aliases |= facts.rooted_aliases(h, {h.args.args[0].arg} | (self.aliases & set(x.arg for x in h.args.args)))
+        return (h, self)
+
     # -- helpers -----------------------------------------------------------------------------------------
     def _is_state_root(self, node):
         r = facts._root_name(node)
